@@ -223,7 +223,7 @@ def run_one(choices, params):
 
 
 def prepare(tier, seed):
-    return 10000 if tier == "quick" else 500000
+    return 20000 if tier == "quick" else 500000
 
 
 def params_for(i, tier, seed):
